@@ -9,6 +9,8 @@ import Poulpy.Lemmas.Fft64Vmp
 import Poulpy.Lemmas.F64Mono
 import Poulpy.Lemmas.Fft64AvxAgree
 import Poulpy.Lemmas.Fft64AvxVmpNumeric
+import Poulpy.Lemmas.Fft64CnvAvx
+import Poulpy.Lemmas.Fft64CnvConst
 
 /-!
 # C07 — DFT-domain products equal exact negacyclic (bivariate) convolution
@@ -1461,10 +1463,7 @@ theorem fft64_vmp_ref_avx_agree_numeric (K : Nat) (hK2 : 2 ≤ K) (hK : K ≤ 15
   exact ⟨fft64avx_vmp_exact K hK2 omg iomg τ51 Ma Mb rows hacc hlen hM dA,
     fft64_vmp_ref_avx_agree K hK2 omg iomg τ51 Ma Mb rows hacc hlen hM dA dR⟩
 
-/- FULL STATEMENT (not proved): `fft64avx_vmp_exact` for the 2-column kernels (`reim4_vec_mat2cols_product_avx`,
-   `…_2ndcol_product_avx`: `re = fmsub(ur, ar, fmsub(ui, ai, re))`), which the same entry point uses when the matrix has more
-   than one output limb; their accumulation order is modelled (`mat2colsStep`) and tied bit for bit (`vmp2`), the error
-   lemma (two fused operations per row on one accumulator) is missing. -/
+/- The 2-column kernels (`reim4_vec_mat2cols_product_avx`, `…_2ndcol_product_avx`) are proved below: `fft64avx_vmp2_exact`. -/
 
 /-! non-vacuity: FFT64Avx and FFT64Ref on the crate's `m = 2` tables (where `m < 16` runs the reference butterflies and
 only the conversions differ), and the fused operation itself -/
@@ -1480,5 +1479,212 @@ example : bflyFwdAvx ⟨0x3FE6A09E667F3BCD, 0x3FE6A09E667F3BCC, false⟩ (0x4008
     bflyFwd ⟨0x3FE6A09E667F3BCD, 0x3FE6A09E667F3BCC, false⟩ (0x4008000000000002, 0x4010000000000006) (0x3FF8000000000131, 0x3FFC00000000046D) := by
   decide +kernel
 example : toLaneAvx 2 0x4024000000000000 = 3 ∧ toLaneAvx 2 0xC024000000000000 = -3 ∧ fromLaneAvx (-5) = ofInt (-5) := by decide +kernel
+
+end C07
+
+
+/-!
+# FFT64: the fused-lane kernels and the bivariate convolution path (appended slice, second round, part 2)
+
+* `fft64avx_lane_step_error`: the error lemma of `re = fmsub(ar, br, fmsub(ai, bi, re))`, `im = fmadd(ai, br, fmadd(ar, bi, im))`
+  (two fused operations per product on one accumulator) — the lane of `reim4_vec_mat2cols(_2ndcol)_product_avx`,
+  `reim4_convolution_{1,2}coeffs_avx` and `reim_addmul_avx2_fma`; `fft64avx_vmp2_exact` lifts it to the 2-column vmp kernels.
+* `fft64_cnv_matches_spec` / `fft64avx_cnv_matches_spec`: `cnv_prepare_left/right` + `cnv_apply_dft` + `idft` of one column equal
+  `Hal.cnvApplyCol` of the prepared (masked, zero-filled) operands, on both back ends, inside explicit domains
+  (`VmpDomain` resp. `LaneDomainAvx` for every number of accumulated products `R ≤ min(sizeL, sizeR)`), numeric tables included;
+  `fft64_cnv_ref_avx_agree`: the two back ends return the same column.
+* `fft64avx_cnv_by_const_eq_ref` / `…_counterexample`: the `i64` by-constant convolution of FFT64Avx (`_mm256_mul_epi32`)
+  equals FFT64Ref exactly when every operand fits in `i32`, and differs at `3000000000 · 3`.
+-/
+
+namespace C07
+open F64 Fft64 Fft64Avx Fft64Cnv Complex Hal
+
+/-- **fused two-operation accumulate**: per component the error grows by `accStepN ν2 (2q + u·Aa·Ab) (Aa·Ab)`, `ν2 = 2u + u²` -/
+theorem fft64avx_lane_step_error (g A Ea Aa Eb Ab : ℝ) (hAa : 1 ≤ Aa) (hAb : 1 ≤ Ab) (hEa : 0 ≤ Ea) (hEb : 0 ≤ Eb) (hg : 0 ≤ g) (hA : 0 ≤ A)
+    (hbig : (accStepN ν2 (2 * qOf Ea Aa Eb Ab + u * (Aa * Ab)) (Aa * Ab) (g, A)).2 +
+      (accStepN ν2 (2 * qOf Ea Aa Eb Ab + u * (Aa * Ab)) (Aa * Ab) (g, A)).1 ≤ (2:ℝ) ^ (1000:Int))
+    (s : C64) (S : ℂ) (uc vc : C64) (x y : ℂ) (hs : Rel2 g A s S)
+    (hu : CFin uc ∧ ‖cval uc - x‖ ≤ Ea ∧ ‖x‖ ≤ Aa) (hv : CFin vc ∧ ‖cval vc - y‖ ≤ Eb ∧ ‖y‖ ≤ Ab) :
+    Rel2 (accStepN ν2 (2 * qOf Ea Aa Eb Ab + u * (Aa * Ab)) (Aa * Ab) (g, A)).1
+         (accStepN ν2 (2 * qOf Ea Aa Eb Ab + u * (Aa * Ab)) (Aa * Ab) (g, A)).2
+      (caddmulLaneAvx s uc vc) (S + x * y) :=
+  lane_step g A Ea Aa Eb Ab hAa hAb hEa hEb hg hA hbig s S uc vc x y hs hu hv
+
+/-- the 2-column vmp kernel is the same lane (definitionally) -/
+theorem fft64avx_mat2cols_is_lane (acc a b : C64) : mat2colsStep acc a b = caddmulLaneAvx acc a b := rfl
+
+/-- **`fft64avx_vmp_exact` for the 2-column kernels** (`reim4_vec_mat2cols_product_avx`, `…_2ndcol_product_avx`) -/
+theorem fft64avx_vmp2_exact (K : Nat) (hK2 : 2 ≤ K) (omg iomg : Array Nat) (τ Ma Mb : ℝ) (rows : List (Poly × Poly))
+    (hacc : TableAccurate τ K omg iomg)
+    (hlen : ∀ r ∈ rows, r.1.length = 2 ^ (K + 1) ∧ r.2.length = 2 ^ (K + 1))
+    (hM : ∀ r ∈ rows, (∀ c ∈ r.1, c.natAbs ≤ 2 ^ 50 - 1 ∧ |(c:ℝ)| ≤ Ma) ∧ (∀ c ∈ r.2, c.natAbs ≤ 2 ^ 50 - 1 ∧ |(c:ℝ)| ≤ Mb))
+    (hdom : LaneDomainAvx K rows.length τ Ma Mb) :
+    vmpPipelineAvx K omg iomg 2 rows = .ok (Hal.sumPolys (2 ^ (K + 1)) (rows.map (fun r => Hal.negMul r.1 r.2))) :=
+  vmpAvx2_pipeline_exact K hK2 omg iomg τ Ma Mb rows hacc hlen hM hdom
+
+/-- `LaneDomainAvx` follows from its main inequality alone -/
+theorem fft64avx_lane_domain_of_main (K R : Nat) (τ Ma Mb : ℝ) (hτ0 : 0 ≤ τ) (hτ1 : τ ≤ 1) (hK : K ≤ 900) (hR : 1 ≤ R)
+    (hMa : 1 ≤ Ma) (hMb : 1 ≤ Mb)
+    (hmain : errB (γi τ) K (accRL K R τ Ma Mb).2 (EaccL K R τ Ma Mb) / 2 ^ K * (1 + u) + u * ((accRL K R τ Ma Mb).2 + 1) + η < 1 / 2) :
+    LaneDomainAvx K R τ Ma Mb := laneDomainAvx_of_main K R τ Ma Mb hτ0 hτ1 hK hR hMa hMb hmain
+
+/-- **`LaneDomainAvx` in numbers** (up to 64 accumulated products): `R·Ma·Mb ≤ 2^(domBitsVA K)` — the table of the one-column
+kernel (`38, 36, 34, 32, 30, 27, 25, 23, 21, 19, 17, 15, 13, 11` for `K = 2 … 15`), growth `≤ (41K + 197)·2^-53` -/
+theorem fft64avx_lane_domain_numeric (K : Nat) (hK : K ≤ 15) (R : Nat) (hR1 : 1 ≤ R) (hR : R ≤ 64) (Ma Mb : ℝ)
+    (hMa : 1 ≤ Ma) (hMb : 1 ≤ Mb) (h : R * (Ma * Mb) ≤ (2:ℝ) ^ (domBitsVA K)) : LaneDomainAvx K R τ51 Ma Mb :=
+  laneDomainAvx_numeric K hK R hR1 hR Ma Mb hMa hMb h
+
+theorem domBitsVA_le_V (K : Nat) (hK : K ≤ 15) : (2:ℝ) ^ (domBitsVA K) ≤ (2:ℝ) ^ (domBitsV K) := by
+  apply pow_le_pow_right₀ (by norm_num)
+  interval_cases K <;> simp [domBitsVA, domBitsV]
+
+/-- vmp through the 2-column kernels, numbers only: exact, and equal to FFT64Ref -/
+theorem fft64_vmp2_ref_avx_agree_numeric (K : Nat) (hK2 : 2 ≤ K) (hK : K ≤ 15) (omg iomg : Array Nat) (Ma Mb : ℝ)
+    (rows : List (Poly × Poly)) (hacc : TableAccurate τ51 K omg iomg)
+    (hlen : ∀ r ∈ rows, r.1.length = 2 ^ (K + 1) ∧ r.2.length = 2 ^ (K + 1))
+    (hM : ∀ r ∈ rows, (∀ c ∈ r.1, c.natAbs ≤ 2 ^ 50 - 1 ∧ |(c:ℝ)| ≤ Ma) ∧ (∀ c ∈ r.2, c.natAbs ≤ 2 ^ 50 - 1 ∧ |(c:ℝ)| ≤ Mb))
+    (hR1 : 1 ≤ rows.length) (hR : rows.length ≤ 64) (hMa : 1 ≤ Ma) (hMb : 1 ≤ Mb)
+    (h : rows.length * (Ma * Mb) ≤ (2:ℝ) ^ (domBitsVA K)) :
+    vmpPipelineAvx K omg iomg 2 rows = .ok (Hal.sumPolys (2 ^ (K + 1)) (rows.map (fun r => Hal.negMul r.1 r.2))) ∧
+    vmpPipelineAvx K omg iomg 2 rows = .ok (Fft64.vmpPipeline K omg iomg rows) := by
+  have dA := fft64avx_lane_domain_numeric K hK rows.length hR1 hR Ma Mb hMa hMb h
+  have dR := fft64_vmp_domain_numeric K hK2 hK rows.length hR1 hR Ma Mb hMa hMb (le_trans h (domBitsVA_le_V K hK))
+  have e := fft64avx_vmp2_exact K hK2 omg iomg τ51 Ma Mb rows hacc hlen hM dA
+  refine ⟨e, ?_⟩
+  rw [e, vmp_pipeline_exact K omg iomg τ51 Ma Mb rows hacc hlen
+      (fun r hr => ⟨fun c hc => ⟨by have := ((hM r hr).1 c hc).1; omega, ((hM r hr).1 c hc).2⟩,
+        fun c hc => ⟨by have := ((hM r hr).2 c hc).1; omega, ((hM r hr).2 c hc).2⟩⟩) dR]
+
+/-! ### convolution -/
+
+/-- `convolution_prepare` on FFT64Ref: every prepared limb is `(EF, AF)`-close to the exact transform of the limb of
+`Hal.cnvPrepareCol` (masked top limb, zero fill) -/
+theorem fft64_cnv_prepare_rel (K : Nat) (omg : Array Nat) (τ M : ℝ) (rs : Nat) (mask : Int) (a : Col)
+    (hτ0 : 0 ≤ τ) (hτ1 : τ ≤ 1) (hM : 1 ≤ M) (hacc : AccF τ (twOf (fwdIdx K) omg) K 0 0 (1 / 4))
+    (hr : 2 ^ K * (1 + γf τ / 2) ^ K * (A0 M + 0) ≤ (2:ℝ) ^ (999:Int))
+    (hok : PrepOK K M (cnvPrepareCol (2 * 2 ^ K) rs mask a)) :
+    ∃ pa, cnvPrepare refOps K omg rs mask a = .ok pa ∧ PrepRel K τ M pa (cnvPrepareCol (2 * 2 ^ K) rs mask a) :=
+  cnvPrepare_rel K omg τ M rs mask a hτ0 hτ1 hM hacc hr hok
+
+/-- **`fft64_cnv_matches_spec`**: FFT64Ref, one column of `cnv_prepare_left/right` + `cnv_apply_dft` + `idft` -/
+theorem fft64_cnv_matches_spec (K : Nat) (hK2 : 2 ≤ K) (omg iomg : Array Nat) (τ Ma Mb : ℝ) (rs off sl sr : Nat) (ml mr : Int)
+    (a b : Col) (hacc : TableAccurate τ K omg iomg) (hsl : 1 ≤ sl) (hsr : 1 ≤ sr)
+    (hA : PrepOK K Ma (cnvPrepareCol (2 * 2 ^ K) sl ml a)) (hB : PrepOK K Mb (cnvPrepareCol (2 * 2 ^ K) sr mr b))
+    (hdom : ∀ R, 1 ≤ R → R ≤ min sl sr → VmpDomain K R τ Ma Mb) :
+    cnvPipeline refOps K omg iomg rs off sl sr ml mr a b =
+      .ok (cnvApplyCol (2 * 2 ^ K) rs off (cnvPrepareCol (2 * 2 ^ K) sl ml a) (cnvPrepareCol (2 * 2 ^ K) sr mr b)) :=
+  cnv_pipeline_exact K hK2 omg iomg τ Ma Mb rs off sl sr ml mr a b hacc hsl hsr hA hB hdom
+
+/-- the convolution domain in numbers: at most `min(sizeL, sizeR) ≤ 64` products are accumulated per output limb -/
+theorem fft64_cnv_matches_spec_numeric (K : Nat) (hK2 : 2 ≤ K) (hK : K ≤ 15) (omg iomg : Array Nat) (Ma Mb : ℝ) (rs off sl sr : Nat)
+    (ml mr : Int) (a b : Col) (hacc : TableAccurate τ51 K omg iomg) (hsl : 1 ≤ sl) (hsr : 1 ≤ sr) (h64 : min sl sr ≤ 64)
+    (hMa : 1 ≤ Ma) (hMb : 1 ≤ Mb)
+    (hA : PrepOK K Ma (cnvPrepareCol (2 * 2 ^ K) sl ml a)) (hB : PrepOK K Mb (cnvPrepareCol (2 * 2 ^ K) sr mr b))
+    (h : (min sl sr : Nat) * (Ma * Mb) ≤ (2:ℝ) ^ (domBitsV K)) :
+    cnvPipeline refOps K omg iomg rs off sl sr ml mr a b =
+      .ok (cnvApplyCol (2 * 2 ^ K) rs off (cnvPrepareCol (2 * 2 ^ K) sl ml a) (cnvPrepareCol (2 * 2 ^ K) sr mr b)) := by
+  apply fft64_cnv_matches_spec K hK2 omg iomg τ51 Ma Mb rs off sl sr ml mr a b hacc hsl hsr hA hB
+  intro R hR1 hR
+  apply fft64_vmp_domain_numeric K hK2 hK R hR1 (le_trans hR h64) Ma Mb hMa hMb
+  refine le_trans ?_ h
+  have : (R:ℝ) ≤ ((min sl sr : Nat):ℝ) := by exact_mod_cast hR
+  exact mul_le_mul_of_nonneg_right this (by positivity)
+
+/-- **`fft64avx_cnv_matches_spec`**: FFT64Avx (range assertions of the conversion included: no panic) -/
+theorem fft64avx_cnv_matches_spec (K : Nat) (hK2 : 2 ≤ K) (omg iomg : Array Nat) (τ Ma Mb : ℝ) (rs off sl sr : Nat) (ml mr : Int)
+    (a b : Col) (hacc : TableAccurate τ K omg iomg) (hsl : 1 ≤ sl) (hsr : 1 ≤ sr)
+    (hrawA : ∀ j, j < min sl a.length → ∀ c ∈ limbOr0 (2 * 2 ^ K) a j, c.natAbs ≤ 2 ^ 50 - 1)
+    (hrawB : ∀ j, j < min sr b.length → ∀ c ∈ limbOr0 (2 * 2 ^ K) b j, c.natAbs ≤ 2 ^ 50 - 1)
+    (hA : PrepOKA K Ma (cnvPrepareCol (2 * 2 ^ K) sl ml a)) (hB : PrepOKA K Mb (cnvPrepareCol (2 * 2 ^ K) sr mr b))
+    (hdom : ∀ R, 1 ≤ R → R ≤ min sl sr → LaneDomainAvx K R τ Ma Mb) :
+    cnvPipeline avxOps K omg iomg rs off sl sr ml mr a b =
+      .ok (cnvApplyCol (2 * 2 ^ K) rs off (cnvPrepareCol (2 * 2 ^ K) sl ml a) (cnvPrepareCol (2 * 2 ^ K) sr mr b)) :=
+  cnvAvx_pipeline_exact K hK2 omg iomg τ Ma Mb rs off sl sr ml mr a b hacc hsl hsr hrawA hrawB hA hB hdom
+
+/-- **`fft64_cnv_ref_avx_agree`** with numbers only: both back ends return `Hal.cnvApplyCol`, hence the same column -/
+theorem fft64_cnv_ref_avx_agree (K : Nat) (hK2 : 2 ≤ K) (hK : K ≤ 15) (omg iomg : Array Nat) (Ma Mb : ℝ) (rs off sl sr : Nat)
+    (ml mr : Int) (a b : Col) (hacc : TableAccurate τ51 K omg iomg) (hsl : 1 ≤ sl) (hsr : 1 ≤ sr) (h64 : min sl sr ≤ 64)
+    (hMa : 1 ≤ Ma) (hMb : 1 ≤ Mb)
+    (hrawA : ∀ j, j < min sl a.length → ∀ c ∈ limbOr0 (2 * 2 ^ K) a j, c.natAbs ≤ 2 ^ 50 - 1)
+    (hrawB : ∀ j, j < min sr b.length → ∀ c ∈ limbOr0 (2 * 2 ^ K) b j, c.natAbs ≤ 2 ^ 50 - 1)
+    (hA : PrepOKA K Ma (cnvPrepareCol (2 * 2 ^ K) sl ml a)) (hB : PrepOKA K Mb (cnvPrepareCol (2 * 2 ^ K) sr mr b))
+    (h : (min sl sr : Nat) * (Ma * Mb) ≤ (2:ℝ) ^ (domBitsVA K)) :
+    cnvPipeline avxOps K omg iomg rs off sl sr ml mr a b =
+      .ok (cnvApplyCol (2 * 2 ^ K) rs off (cnvPrepareCol (2 * 2 ^ K) sl ml a) (cnvPrepareCol (2 * 2 ^ K) sr mr b)) ∧
+    cnvPipeline avxOps K omg iomg rs off sl sr ml mr a b = cnvPipeline refOps K omg iomg rs off sl sr ml mr a b := by
+  have hRle : ∀ R : Nat, R ≤ min sl sr → (R:ℝ) * (Ma * Mb) ≤ (2:ℝ) ^ (domBitsVA K) := by
+    intro R hR
+    refine le_trans ?_ h
+    have : (R:ℝ) ≤ ((min sl sr : Nat):ℝ) := by exact_mod_cast hR
+    exact mul_le_mul_of_nonneg_right this (by positivity)
+  have dA : ∀ R, 1 ≤ R → R ≤ min sl sr → LaneDomainAvx K R τ51 Ma Mb :=
+    fun R hR1 hR => fft64avx_lane_domain_numeric K hK R hR1 (le_trans hR h64) Ma Mb hMa hMb (hRle R hR)
+  have dR : ∀ R, 1 ≤ R → R ≤ min sl sr → VmpDomain K R τ51 Ma Mb :=
+    fun R hR1 hR => fft64_vmp_domain_numeric K hK2 hK R hR1 (le_trans hR h64) Ma Mb hMa hMb (le_trans (hRle R hR) (domBitsVA_le_V K hK))
+  exact ⟨fft64avx_cnv_matches_spec K hK2 omg iomg τ51 Ma Mb rs off sl sr ml mr a b hacc hsl hsr hrawA hrawB hA hB dA,
+    cnv_ref_avx_agree K hK2 omg iomg τ51 Ma Mb rs off sl sr ml mr a b hacc hsl hsr hrawA hrawB hA hB dR dA⟩
+
+/-- **by-constant convolution (`i64`)**: FFT64Avx = FFT64Ref when every limb coefficient and every constant fits in `i32` -/
+theorem fft64avx_cnv_by_const_eq_ref (K rs off : Nat) (a : Col) (b : List Int)
+    (ha : ∀ j i, -(2 ^ 31) ≤ (limbOr0 (2 * 2 ^ K) a j).getD i 0 ∧ (limbOr0 (2 * 2 ^ K) a j).getD i 0 < 2 ^ 31)
+    (hb : ∀ j, -(2 ^ 31) ≤ b.getD j 0 ∧ b.getD j 0 < 2 ^ 31) :
+    cnvByConst true K rs off a b = cnvByConst false K rs off a b := cnvByConst_avx_eq_ref K rs off a b ha hb
+
+/-- … and **differs outside**: `3000000000 · 3` (`_mm256_mul_epi32` multiplies the sign-extended low 32 bits; the HAL entry point
+`cnv_by_const_apply` does not state the `i32` restriction) -/
+theorem fft64avx_cnv_by_const_counterexample :
+    cnvByConst true 2 1 0 [[3000000000, 1, -3000000000, 5, 6, 7, 8, 9]] [3] ≠
+    cnvByConst false 2 1 0 [[3000000000, 1, -3000000000, 5, 6, 7, 8, 9]] [3] := cnvByConst_avx_counterexample
+
+/- FULL STATEMENT (not proved): `cnv_pairwise_apply_dft(i ≠ j)` (`cnvPairwise`: modelled and tied bit for bit on both back ends).
+   The exact side is `cnvApplyCol (colAdd A_i A_j) (colAdd B_i B_j)`; the computed operands are `(2·EF + 3u·(AF + EF), 2·AF)`-close
+   (one `f64` addition per component, magnitudes doubled), so the accumulation lemmas (`fold_close`, `fold_closeL`: generic in
+   `(Ea, Aa, Eb, Ab)`) apply, but the domain predicates `VmpDomain` / `LaneDomainAvx` are phrased for `(EF, AF)` operands; the
+   generalised predicate and its numeric table (≈ 2 bits below `domBitsV`) are missing.
+   `convolution_apply_dft` with `n < 8` (`m/4 = 0` blocks: nothing is written) is outside the model (`.err`). -/
+
+/-! non-vacuity: both back ends on the crate's real `m = 4` tables, evaluated by the kernel; the numeric domain is inhabited -/
+def omg4 : Array Nat := #[4604544271217802189, 4604544271217802188, 4606496786581982534, 4600565431771507043, 0, 0, 0, 0]
+def iomg4 : Array Nat := #[4606496786581982534, 13823937468626282851, 4604544271217802189, 13827916308072577996, 0, 0, 0, 0]
+def okOr {α} (o : Outcome α) (d : α) : α := match o with | .ok v => v | _ => d
+example : okOr (cnvPipeline refOps 2 omg4 iomg4 3 0 2 2 (-1) (-4) [[4095, -4095, 1, 0, 7, -9, 1000, 4095], [1, 2, 3, 4, 5, 6, 7, -4095]]
+      [[-5, 4095, 0, 0, 0, 0, 0, 1], [4095, 4095, 4095, 4095, 4095, 4095, 4095, 4095]]) [] =
+    cnvApplyCol 8 3 0 (cnvPrepareCol 8 2 (-1) [[4095, -4095, 1, 0, 7, -9, 1000, 4095], [1, 2, 3, 4, 5, 6, 7, -4095]])
+      (cnvPrepareCol 8 2 (-4) [[-5, 4095, 0, 0, 0, 0, 0, 1], [4095, 4095, 4095, 4095, 4095, 4095, 4095, 4095]]) := by decide +kernel
+example : okOr (cnvPipeline avxOps 2 omg4 iomg4 3 1 2 2 (-1) (-4) [[4095, -4095, 1, 0, 7, -9, 1000, 4095], [1, 2, 3, 4, 5, 6, 7, -4095]]
+      [[-5, 4095, 0, 0, 0, 0, 0, 1], [4095, 4095, 4095, 4095, 4095, 4095, 4095, 4095]]) [] =
+    cnvApplyCol 8 3 1 (cnvPrepareCol 8 2 (-1) [[4095, -4095, 1, 0, 7, -9, 1000, 4095], [1, 2, 3, 4, 5, 6, 7, -4095]])
+      (cnvPrepareCol 8 2 (-4) [[-5, 4095, 0, 0, 0, 0, 0, 1], [4095, 4095, 4095, 4095, 4095, 4095, 4095, 4095]]) := by decide +kernel
+example : okOr (vmpPipelineAvx 2 omg4 iomg4 2 [([4095, -4095, 1, 0, 7, -9, 1000, 4095], [1, 2, 3, 4, 5, 6, 7, -4095]),
+       ([-5, 4095, 0, 0, 0, 0, 0, 1], [4095, 4095, 4095, 4095, 4095, 4095, 4095, 4095])]) [] =
+    Hal.sumPolys 8 [Hal.negMul [4095, -4095, 1, 0, 7, -9, 1000, 4095] [1, 2, 3, 4, 5, 6, 7, -4095],
+      Hal.negMul [-5, 4095, 0, 0, 0, 0, 0, 1] [4095, 4095, 4095, 4095, 4095, 4095, 4095, 4095]] := by decide +kernel
+example : ∀ R, 1 ≤ R → R ≤ min 2 2 → LaneDomainAvx 2 R τ51 4096 4096 ∧ VmpDomain 2 R τ51 4096 4096 := by
+  intro R h1 h2
+  have hR : (R:ℝ) ≤ 2 := by exact_mod_cast h2
+  exact ⟨fft64avx_lane_domain_numeric 2 (by norm_num) R h1 (by omega) _ _ (by norm_num) (by norm_num) (by unfold domBitsVA; norm_num; nlinarith),
+    fft64_vmp_domain_numeric 2 le_rfl (by norm_num) R h1 (by omega) _ _ (by norm_num) (by norm_num) (by unfold domBitsV; norm_num; nlinarith)⟩
+example : PrepOKA 2 4096 (cnvPrepareCol 8 2 (-4) [[-5, 4095, 0, 0, 0, 0, 0, 1], [4095, 4095, 4095, 4095, 4095, 4095, 4095, 4095]]) := by
+  have e : cnvPrepareCol 8 2 (-4) [[-5, 4095, 0, 0, 0, 0, 0, 1], [4095, 4095, 4095, 4095, 4095, 4095, 4095, 4095]] =
+      [[-5, 4095, 0, 0, 0, 0, 0, 1], [4092, 4092, 4092, 4092, 4092, 4092, 4092, 4092]] := by decide +kernel
+  rw [e]
+  intro l hl
+  simp only [List.mem_cons, List.not_mem_nil, or_false] at hl
+  rcases hl with rfl | rfl
+  · refine ⟨rfl, ?_⟩
+    intro c hc
+    simp only [List.mem_cons, List.not_mem_nil, or_false] at hc
+    rcases hc with rfl | rfl | rfl | rfl | rfl | rfl | rfl | rfl <;> (constructor <;> norm_num)
+  · refine ⟨rfl, ?_⟩
+    intro c hc
+    simp only [List.mem_cons, List.not_mem_nil, or_false] at hc
+    rcases hc with rfl | rfl | rfl | rfl | rfl | rfl | rfl | rfl <;> (constructor <;> norm_num)
+/-- the fused lane on concrete doubles differs from the reference `caddmul` (separately rounded products) -/
+example : caddmulLaneAvx (0x3FF0000000000000, 0x3FF0000000000000) (0x3FF0000000000001, 0x3FF0000000000001) (0x3FF0000000000001, 0x3FE6A09E667F3BCD) ≠
+    caddmul (0x3FF0000000000000, 0x3FF0000000000000) (0x3FF0000000000001, 0x3FF0000000000001) (0x3FF0000000000001, 0x3FE6A09E667F3BCD) := by
+  decide +kernel
+example : lo32 3000000000 = -1294967296 ∧ byConstTerm true 3000000000 3 = -3884901888 ∧ byConstTerm false 3000000000 3 = 9000000000 := by
+  decide +kernel
 
 end C07
